@@ -39,7 +39,7 @@ def loop_drawing(g, A, order):
 
 def loop_contract(name, order):
     @contract('CircuitCalculator.SimpleCircuit.DiagramTranslator.circuit_translator', props=['C13'], name='loop_' + name,
-              bounded='one drawing (source, resistor, three wires, ground, one labelled node), insertion order ' + name)
+              bounded='one drawing (source, resistor, three wires, ground, one labelled node), insertion order ' + name, set_order_dependent_result=True)
     class _c:
         def inputs(g):
             A = g.label('A')
@@ -105,7 +105,7 @@ class node_naming:
         }
 
 
-@contract('CircuitCalculator.SimpleCircuit.DiagramParser.SchematicDiagramParser.ground', props=['C13', 'C19'], bounded='one drawing with one or two ground symbols')
+@contract('CircuitCalculator.SimpleCircuit.DiagramParser.SchematicDiagramParser.ground', props=['C13', 'C19'], bounded='one drawing with one or two ground symbols', set_order_dependent_result=True)
 class ground_symbols:
     total = True
     frame = False
@@ -139,3 +139,26 @@ class unknown_symbol:
 
     def ensures(result, R):
         return {'a symbol without translator is rejected, not dropped': raised(result, dt.UnknownTranslator)}
+
+
+@contract('CircuitCalculator.SimpleCircuit.DiagramTranslator.circuit_translator', props=['C13'], name='labelled_wire_is_an_element',
+          bounded='one drawing with a labelled wire (named short circuit) between two nodes', set_order_dependent_result=True)
+class labelled_wire:
+    frame = False
+
+    def inputs(g):
+        s = drawing([
+            place(elm.CurrentSource(name='I1', I=g.real('I')), (0, 0), (0, 3)),
+            place(elm.LabeledLine(name='SC1'), (0, 3), (3, 3)),
+            place(elm.Resistor(name='R1', R=g.pos('R')), (3, 3), (3, 0)),
+            place(elm.Line(), (3, 0), (0, 0)),
+            place(elm.Ground(), (0, 0)),
+            place(elm.LabelNode(name='A'), (0, 3)),
+            place(elm.LabelNode(name='B'), (3, 3)),
+        ])
+        return dict(schematic=s)
+
+    def ensures(result, schematic):
+        comps = {c.id: c for c in result.components}
+        return {'the labelled wire is a component between two different nodes': 'SC1' in comps and comps['SC1'].type == 'short_circuit' and eq(comps['SC1'].nodes, ('A', 'B')),
+                'its ends are not merged': eq(comps['I1'].nodes, ('0', 'A')) and eq(comps['R1'].nodes, ('B', '0'))}
